@@ -38,8 +38,8 @@ U = ast.unparse
 # ---- ground truth ---------------------------------------------------------
 def truth(case, sA, sB):
     """A subset of B for curve configuration `case` and orientation signs"""
-    if case == 1:
-        return sA > 0 and sB < 0            # disjoint disks
+    if case in (1, 6):
+        return sA > 0 and sB < 0            # disjoint disks (closed regions: touching in one point changes nothing)
     if case == 2:
         return sA > 0 and sB > 0            # curve A inside curve B
     if case == 3:
@@ -49,9 +49,9 @@ def truth(case, sA, sB):
     return False                            # crossing curves
 
 
-SWAP = {1: 1, 2: 3, 3: 2, 4: 4, 5: 5}
+SWAP = {1: 1, 2: 3, 3: 2, 4: 4, 5: 5, 6: 6}
 CASE_NAME = {1: "disjoint disks", 2: "A's curve inside B's", 3: "B's curve inside A's", 4: "identical curves",
-             5: "crossing curves"}
+             5: "crossing curves", 6: "disks touching from outside in one point, a vertex of one of the curves"}
 
 
 def curve_in_region(case, X, Y, sY):
@@ -60,7 +60,7 @@ def curve_in_region(case, X, Y, sY):
         return True
     if case == 5:
         return False
-    if case == 1:
+    if case in (1, 6):
         return sY < 0
     inner = "A" if case == 2 else "B"
     if X == inner:
@@ -68,7 +68,27 @@ def curve_in_region(case, X, Y, sY):
     return sY < 0                           # the outer curve lies in the exterior of the inner one
 
 
+def vertex_in_region(row, X, idx, Y, sY):
+    """is vertex number idx of the curve of role X in the closed region of role Y?  A single vertex knows less than the
+    whole curve: on crossing curves it may lie on either side (row['vin']), and where the disks touch, the touching
+    vertex (row['touch'] = role + '0': it is vertex 0 of that curve) lies in *both* closed regions"""
+    case = row["case"]
+    if X == Y or case == 4:
+        return True
+    if case == 5:
+        return bool(row.get("vin", False))
+    if case == 6 and row.get("touch") == X + "0" and idx == 0:
+        return True
+    return curve_in_region(case, X, Y, sY)
+
+
 def rows():
+    # the non-generic configuration 6 and the per-vertex facts matter only to code that consults single vertices;
+    # they are enumerated always (the decision must agree with the table there as well)
+    for sA, sB in itertools.product((1, -1), repeat=2):
+        for touch in ("A0", "B0", "none"):
+            for mA, mB in ((1, 4), (4, 1)):
+                yield dict(case=6, sA=sA, sB=sB, mA=mA, mB=mB, overlap=True, touch=touch)
     for case in (1, 2, 3, 4, 5):
         for sA, sB in itertools.product((1, -1), repeat=2):
             if case == 1:
@@ -83,7 +103,11 @@ def rows():
             else:
                 variants = [(1, 4, True), (4, 1, True), (2, 2, True)]
             for mA, mB, ov in variants:
-                yield dict(case=case, sA=sA, sB=sB, mA=mA, mB=mB, overlap=ov)
+                if case == 5:
+                    for vin in (True, False):
+                        yield dict(case=case, sA=sA, sB=sB, mA=mA, mB=mB, overlap=ov, vin=vin)
+                else:
+                    yield dict(case=case, sA=sA, sB=sB, mA=mA, mB=mB, overlap=ov)
 
 
 class Shape:
@@ -94,6 +118,11 @@ class Shape:
 class Jordan:
     def __init__(self, role):
         self.role = role
+
+
+class Vertex:
+    def __init__(self, role, idx):
+        self.role, self.idx = role, idx
 
 
 class BoxV:
@@ -131,6 +160,11 @@ class Interp:
         case = self.row["case"] if X.role == "A" else SWAP[self.row["case"]]
         row = dict(case=case, sA=self.sign(X), sB=self.sign(Y), mA=self.mag(X), mB=self.mag(Y),
                    overlap=self.row["overlap"])
+        if "vin" in self.row:
+            row["vin"] = self.row["vin"]
+        if "touch" in self.row:
+            t = self.row["touch"]
+            row["touch"] = t if X.role == "A" or t == "none" else {"A0": "B0", "B0": "A0"}[t]
         return Interp(self.fn, row, self.depth + 1).run()
 
     def run(self):
@@ -197,6 +231,8 @@ class Interp:
             if isinstance(op, (ast.In, ast.NotIn)):
                 if isinstance(l, Jordan) and isinstance(r, Shape):
                     v = curve_in_region(self.row["case"], l.role, r.role, self.sign(r))
+                elif isinstance(l, Vertex) and isinstance(r, Shape):
+                    v = vertex_in_region(self.row, l.role, l.idx, r.role, self.sign(r))
                 elif isinstance(l, Shape) and isinstance(r, Shape):
                     v = self.shape_in_shape(l, r)
                 else:
@@ -223,6 +259,8 @@ class Interp:
             v = self.ev(e.value)
             if isinstance(v, Shape) and e.attr == "jordans":
                 return (Jordan(v.role),)
+            if isinstance(v, Jordan) and e.attr == "vertices":
+                return tuple(Vertex(v.role, i) for i in range(3))
             raise Undecided(U(e)[:40])
         if isinstance(e, ast.Call):
             f = e.func
@@ -236,6 +274,24 @@ class Interp:
                 return abs(self.ev(e.args[0]))
             if isinstance(f, ast.Name) and f.id == "bool" and len(e.args) == 1:
                 return self.truthy(self.ev(e.args[0]))
+            if isinstance(f, ast.Attribute) and f.attr == "points" and isinstance(self.ev(f.value), Jordan):
+                return tuple(Vertex(self.ev(f.value).role, i) for i in range(3))
+            if isinstance(f, ast.Attribute) and f.attr == "contains_point" and e.args:
+                sh, pt = self.ev(f.value), self.ev(e.args[0])
+                if isinstance(sh, Shape) and isinstance(pt, Vertex):
+                    return vertex_in_region(self.row, pt.role, pt.idx, sh.role, self.sign(sh))
+            if isinstance(f, ast.Name) and f.id in ("all", "any") and len(e.args) == 1 \
+                    and isinstance(e.args[0], (ast.GeneratorExp, ast.ListComp)) and len(e.args[0].generators) == 1:
+                g = e.args[0].generators[0]
+                seq = self.ev(g.iter)
+                if isinstance(seq, tuple) and isinstance(g.target, ast.Name) and not g.ifs:
+                    vals = []
+                    for x in seq:
+                        saved = self.env.get(g.target.id)
+                        self.env[g.target.id] = x
+                        vals.append(self.truthy(self.ev(e.args[0].elt)))
+                        self.env[g.target.id] = saved
+                    return all(vals) if f.id == "all" else any(vals)
             if isinstance(f, ast.Attribute) and f.attr == "box" and not e.args:
                 v = self.ev(f.value)
                 if isinstance(v, (Shape, Jordan)):
